@@ -272,9 +272,14 @@ func main() {
 		}
 		u := sb.String()
 		c := benchunit.ClassOf(u)
-		hx.Printf("case %d kind=classof unit=%s tag=classof\n", id, hx.HexS(u))
+		// History: the class of a unit string must not depend on whether Tidy has seen it (Tidy keeps a
+		// process-wide cache), and normalising a unit keeps its class (MB -> B stay bytes in the numerator).
+		_, tu := benchunit.Tidy(1, u)
+		c2 := benchunit.ClassOf(u)
+		c3 := benchunit.ClassOf(tu)
+		hx.Printf("case %d kind=classof unit=%s tidied=%s tag=classof\n", id, hx.HexS(u), hx.HexS(tu))
 		hx.Printf("obs %d cls=%d toks=%s\n", id, int(c), benchunit.VerifTokens(u))
-		hx.Printf("sobs %d cls=%d\n", id, int(c))
+		hx.Printf("sobs %d cls=%d after=%d tidied=%d\n", id, int(c), int(c2), int(c3))
 		id++
 	}
 }
